@@ -32,13 +32,12 @@ def job_for(ctx, contract, unit, cases, observe=None, shapes=None):
     types.update(contract.types)
     cm = class_modules(ctx, contract)
     alltypes = list(types.values()) + [t for d in contract.class_fields.values() for t in d.values()]
+    import re as _re
     for t in alltypes:
-        for part in str(t).replace("[", ",").replace("]", ",").split(","):
-            part = part.strip()
-            if part.startswith("obj:"):
-                cf = ctx.facts.cls(part[4:])
-                if cf is not None:
-                    cm[cf.name] = cf.file[:-3].replace("/", ".")
+        for nm in _re.findall(r"(?:obj:|objlist\[|pairlist\[)(\w+)", str(t)):
+            cf = ctx.facts.cls(nm)
+            if cf is not None:
+                cm[cf.name] = cf.file[:-3].replace("/", ".")
     if "self" in params and "self" not in types and unit.cls is not None:
         types["self"] = f"obj:{unit.cls.name}"
         cm[unit.cls.name] = unit.cls.file[:-3].replace("/", ".")
@@ -48,7 +47,7 @@ def job_for(ctx, contract, unit, cases, observe=None, shapes=None):
         "requires": contract.requires, "raises": contract.raises, "params": params, "kwonly": kwonly,
         "cases": cases, "observe": observe or sorted(_path_expr(p) for p in types if "." in p or p in params),
         "patches": contract.native.get("patches", {}), "spec_funs": contract.native.get("spec_funs", {}),
-        "class_fields": contract.class_fields, "construct": contract.native.get("construct", []),
+        "class_fields": contract.class_fields, "construct": contract.native.get("construct", []), "backrefs": contract.backrefs, "native_defaults": contract.native.get("defaults", {}),
         "int_window": contract.native.get("int_window", [-2, 16]),
     }
 
@@ -128,7 +127,7 @@ def sample_prestates(ctx, contract, unit, n, seed, shapes=None):
         for name, t in ex.inputs.items():
             srt = t.sort()
             if srt == z3.IntSort():
-                small.append(z3.And(t >= -1, t <= 12))
+                small.append(z3.And(t >= -1, t <= (4 if name.endswith("!len") else 12)))
             elif srt == z3.StringSort():
                 small.append(z3.Length(t) <= 4)
             elif z3.is_seq(t):
@@ -177,6 +176,12 @@ def sample_prestates(ctx, contract, unit, n, seed, shapes=None):
             vals = {}
             block = []
             for name, t in ex.inputs.items():
+                if "[*]." in name:
+                    base = name.split("[*].")[0]
+                    lt = ex.inputs.get(base + "!len")
+                    n = m.eval(lt, model_completion=True).as_long() if lt is not None else 0
+                    vals[name] = [_model_value(m.eval(z3.Select(t, i), model_completion=True)) for i in range(max(0, min(n, 8)))]
+                    continue
                 v = m.eval(t, model_completion=True)
                 vals[name] = _model_value(v)
                 if t.sort() in (z3.IntSort(), z3.BoolSort(), z3.StringSort(), ops.Val, ops.IntSeq, ops.StrSeq):
